@@ -584,6 +584,225 @@ theorem runLoop_events_J (c : Clock) (sched : List (List Act × (Nat → List (O
         exact ⟨hst.trans h1, h2, h3⟩
     · cases hd
 
+/-! ### 6. Interactive stepping with an explicit step size; the clock without modifiers -/
+
+/-- `InteractiveContext.step()` without a step size is exactly the engine's step (F3 fix): everything
+above applies to interactive stepping, `take_steps`, `run_until`, `run_for` and `run` unchanged. -/
+theorem interactive_default_is_engine (c : Clock) (acts : List Act) (mods : Nat → List (Option Nat)) :
+    interactiveIterate c none acts mods = iterate c acts mods := rfl
+
+theorem acts_consts (c : Clock) (acts : List Act) :
+    (acts.foldl act c).step = c.step ∧ (acts.foldl act c).minStep = c.minStep ∧
+    (acts.foldl act c).stdStep = c.stdStep := by
+  induction acts generalizing c with
+  | nil => exact ⟨rfl, rfl, rfl⟩
+  | cons a as ih =>
+    simp only [List.foldl_cons]
+    rw [(ih (act c a)).1, (ih (act c a)).2.1, (ih (act c a)).2.2]; simp
+
+theorem stepForward_sims_nil (c : Clock) (mods : Nat → List (Option Nat)) :
+    (stepForward c mods).sims = [] ↔ c.sims = [] := by
+  rw [stepForward_sims, List.map_eq_nil_iff]
+
+/-- the update establishes `J` from scratch for a non-empty population (nothing is assumed about the state
+before – in particular not about the global step, which may have been overridden) -/
+theorem stepForward_J_nonempty (c : Clock) (mods : Nat → List (Option Nat)) (hc : Cfg c) (hne : c.sims ≠ [])
+    (hland : c.now + c.step < c.stop + c.minStep) : J (stepForward c mods) := by
+  obtain ⟨m, hsome, heq⟩ := stepForward_nonempty c mods hne
+  rw [heq]
+  obtain ⟨hmem, hle⟩ := minOpt_spec hsome
+  obtain ⟨smin, hsmin, hnext⟩ := List.mem_map.mp hmem
+  obtain ⟨s0, _, hs0⟩ := List.mem_map.mp hsmin
+  refine ⟨?_, ?_, ?_⟩
+  · intro s hs'
+    have := hle s.next (List.mem_map_of_mem hs')
+    simp only; omega
+  · intro _
+    exact ⟨smin, hsmin, by simp only; omega⟩
+  · have := updSim_next_gt c (c.now + c.step) mods s0 hc hland
+    rw [hs0, hnext] at this
+    simp only; omega
+
+/-- the two branches of an interactive step with an explicit step size (F33) -/
+theorem interactiveIterate_some (c : Clock) (s : Int) (acts : List Act) (mods : Nat → List (Option Nat)) :
+    ((acts.foldl act (overrideStep c s)).sims = [] ∧
+      interactiveIterate c (some s) acts mods = restoreStep (iterate (overrideStep c s) acts mods) c.step) ∨
+    ((acts.foldl act (overrideStep c s)).sims ≠ [] ∧
+      interactiveIterate c (some s) acts mods = iterate (overrideStep c s) acts mods) := by
+  by_cases h : (acts.foldl act (overrideStep c s)).sims = []
+  · left
+    refine ⟨h, ?_⟩
+    have : (iterate (overrideStep c s) acts mods).sims = [] := (stepForward_sims_nil _ mods).mpr h
+    simp [interactiveIterate, this]
+  · right
+    refine ⟨h, ?_⟩
+    have : (iterate (overrideStep c s) acts mods).sims ≠ [] := fun h' => h ((stepForward_sims_nil _ mods).mp h')
+    have hf : (iterate (overrideStep c s) acts mods).sims.isEmpty = false := by
+      cases hc : (iterate (overrideStep c s) acts mods).sims with
+      | nil => exact absurd hc this
+      | cons a as => rfl
+    simp [interactiveIterate, hf]
+
+/-- an explicit step size is honoured: the events of the iteration carry event time `now + s`, include
+exactly the simulants whose next-event time is reached by then, the clock lands on `now + s`; afterwards
+(F33) the global step is the one `step_forward` recomputed – it points at the earliest pending next-event
+time – and the old global step comes back only when there is nobody to compute it from. -/
+theorem explicit_step_honoured (c : Clock) (s : Int) (acts : List Act) (mods : Nat → List (Option Nat)) :
+    eventTime (overrideStep c s) = c.now + s ∧
+    (∀ i, i ∈ active (overrideStep c s) ↔ ∃ x ∈ c.sims, x.id = i ∧ x.next ≤ c.now + s) ∧
+    (interactiveIterate c (some s) acts mods).now = c.now + s ∧
+    ((interactiveIterate c (some s) acts mods).sims = [] → (interactiveIterate c (some s) acts mods).step = c.step) ∧
+    ((interactiveIterate c (some s) acts mods).sims ≠ [] →
+      minOpt ((interactiveIterate c (some s) acts mods).sims.map (·.next)) =
+        some (eventTime (interactiveIterate c (some s) acts mods))) := by
+  have hnow : (iterate (overrideStep c s) acts mods).now = c.now + s := by
+    simp only [iterate, stepForward_now]
+    rw [(acts_now_stop _ acts).1, (acts_consts _ acts).1]; rfl
+  refine ⟨rfl, ?_, ?_, ?_, ?_⟩
+  · intro i
+    simp only [active, activeAt, overrideStep, eventTime, List.mem_map, List.mem_filter, due, decide_eq_true_eq]
+    constructor
+    · rintro ⟨x, ⟨hx, hd⟩, rfl⟩; exact ⟨x, hx, rfl, hd⟩
+    · rintro ⟨x, hx, rfl, hd⟩; exact ⟨x, ⟨hx, hd⟩, rfl⟩
+  · rcases interactiveIterate_some c s acts mods with ⟨_, h⟩ | ⟨_, h⟩ <;> rw [h]
+    · simpa [restoreStep] using hnow
+    · exact hnow
+  · intro hnil
+    rcases interactiveIterate_some c s acts mods with ⟨_, h⟩ | ⟨hne, h⟩
+    · rw [h]; rfl
+    · rw [h] at hnil
+      exact absurd ((stepForward_sims_nil _ mods).mp hnil) hne
+  · intro hne'
+    rcases interactiveIterate_some c s acts mods with ⟨he, h⟩ | ⟨hne, h⟩
+    · rw [h] at hne'
+      exact absurd ((stepForward_sims_nil _ mods).mpr he) (by simpa [restoreStep, iterate] using hne')
+    · rw [h]; exact next_event_is_earliest _ mods hne
+
+/-- … and whatever the explicit step is, the update that follows leaves nobody behind the clock: every
+simulant reached (late or on time) is rescheduled strictly into the future. -/
+theorem explicit_step_all_ahead (c : Clock) (s : Int) (acts : List Act) (mods : Nat → List (Option Nat))
+    (hc : Cfg c) (hland : c.now + s < c.stop + c.minStep) :
+    ∀ x ∈ (interactiveIterate c (some s) acts mods).sims, (interactiveIterate c (some s) acts mods).now < x.next := by
+  have h1 := acts_now_stop (overrideStep c s) acts
+  have h2 := acts_consts (overrideStep c s) acts
+  have hcfg : Cfg (acts.foldl act (overrideStep c s)) := by
+    unfold Cfg; rw [h2.2.1, h2.2.2]; exact hc
+  have := all_ahead_after_update (acts.foldl act (overrideStep c s)) mods hcfg
+    (by rw [h1.1, h1.2, h2.1, h2.2.1]; exact hland)
+  rcases interactiveIterate_some c s acts mods with ⟨_, h⟩ | ⟨_, h⟩ <;> rw [h]
+  · simpa [restoreStep, iterate] using this
+  · simpa [iterate] using this
+
+/-- everything an interactive session can do to its clock: what `Steps` allows, plus steps with an explicit
+step size of ANY value (during which listeners act under the overridden step) -/
+inductive ISteps : Clock → Clock → Prop
+  | refl (c : Clock) : ISteps c c
+  | act {c c' : Clock} (a : Act) : ISteps c c' → ISteps c (act c' a)
+  | step {c c' : Clock} (mods : Nat → List (Option Nat)) : ISteps c c' → c'.now < c'.stop →
+      ISteps c (stepForward c' mods)
+  | xstep {c c' : Clock} (s : Int) (acts : List Act) (mods : Nat → List (Option Nat)) : ISteps c c' →
+      c'.now < c'.stop → ISteps c (interactiveIterate c' (some s) acts mods)
+
+theorem isteps_Inv {c c' : Clock} (h : ISteps c c') (hi : Inv c) :
+    Inv c' ∧ c'.stop = c.stop ∧ c'.minStep = c.minStep ∧ c'.stdStep = c.stdStep := by
+  induction h with
+  | refl => exact ⟨hi, rfl, rfl, rfl⟩
+  | act a _ ih =>
+    obtain ⟨⟨hc, hj⟩, h1, h2, h3⟩ := ih
+    refine ⟨⟨?_, ?_⟩, by simp [h1], by simp [h2], by simp [h3]⟩
+    · simpa [Cfg] using hc
+    · intro hrun
+      simp only [act_now, act_stop] at hrun
+      exact act_J _ a (hj hrun)
+  | step mods _ hrun ih =>
+    obtain ⟨⟨hc, hj⟩, h1, h2, h3⟩ := ih
+    refine ⟨⟨?_, ?_⟩, by simp [h1], by simp [h2], by simp [h3]⟩
+    · simpa [Cfg] using hc
+    · intro hrun'
+      simp only [stepForward_now, stepForward_stop] at hrun'
+      exact stepForward_J _ mods hc (hj hrun) (by have := hc.1; omega)
+  | @xstep c' s acts mods _ hrun ih =>
+    obtain ⟨⟨hc, hj⟩, h1, h2, h3⟩ := ih
+    have a1 := acts_now_stop (overrideStep c' s) acts
+    have a2 := acts_consts (overrideStep c' s) acts
+    have hcfg : Cfg (acts.foldl act (overrideStep c' s)) := by
+      unfold Cfg; rw [a2.2.1, a2.2.2]; exact hc
+    have hstop : (iterate (overrideStep c' s) acts mods).stop = c'.stop := by
+      simp only [iterate, stepForward_stop]; rw [a1.2]; rfl
+    have hmin : (iterate (overrideStep c' s) acts mods).minStep = c'.minStep := by
+      simp only [iterate, stepForward_minStep]; rw [a2.2.1]; rfl
+    have hstd : (iterate (overrideStep c' s) acts mods).stdStep = c'.stdStep := by
+      simp only [iterate, stepForward_stdStep]; rw [a2.2.2]; rfl
+    rcases interactiveIterate_some c' s acts mods with ⟨he, h⟩ | ⟨hne, h⟩ <;> rw [h]
+    · refine ⟨⟨?_, ?_⟩, ?_, ?_, ?_⟩
+      · simpa [Cfg, restoreStep, hmin, hstd] using hc
+      · intro _
+        have hnil : (iterate (overrideStep c' s) acts mods).sims = [] := (stepForward_sims_nil _ mods).mpr he
+        refine ⟨?_, ?_, ?_⟩
+        · intro x hx; simp [restoreStep, hnil] at hx
+        · intro hx; simp [restoreStep, hnil] at hx
+        · simpa [restoreStep] using (hj hrun).2.2
+      · simp [restoreStep, hstop, h1]
+      · simp [restoreStep, hmin, h2]
+      · simp [restoreStep, hstd, h3]
+    · refine ⟨⟨?_, ?_⟩, by rw [hstop, h1], by rw [hmin, h2], by rw [hstd, h3]⟩
+      · unfold Cfg; rw [hmin, hstd]; exact hc
+      · intro hrun'
+        rw [hstop] at hrun'
+        simp only [iterate, stepForward_now] at hrun'
+        exact stepForward_J_nonempty _ mods hcfg hne (by
+          rw [a1.2, a2.2.1]
+          have := hc.1
+          simp only [overrideStep] at hrun' ⊢
+          omega)
+
+/-- `default_step_goes_to_earliest` (what the F33 repair makes true): with per-simulant clocks, in EVERY state
+an interactive session can reach while the clock is before the stop time – through default steps, steps with
+explicit step sizes of any value, births and move-to-end requests, in any order – a default step's event
+time is the earliest pending next-event time (for a non-empty population), its index is exactly the simulants
+sitting on it, and nobody's next-event time is earlier. In particular this holds for the default step right
+after an explicit one. -/
+theorem default_step_goes_to_earliest (start stop minStep std : Int) (n : Nat) (mods0 : Nat → List (Option Nat))
+    (c : Clock) (hm : 0 < minStep) (hstd : 0 ≤ std)
+    (h : ISteps (initSims (configure start stop minStep std) n mods0) c) (hrun : c.now < c.stop) :
+    (c.sims ≠ [] → minOpt (c.sims.map (·.next)) = some (eventTime c)) ∧
+    (∀ i, i ∈ active c ↔ ∃ x ∈ c.sims, x.id = i ∧ x.next = eventTime c) ∧
+    (∀ x ∈ c.sims, eventTime c ≤ x.next) ∧
+    (∀ mods, (stepForward c mods).now = eventTime c) := by
+  have hJ := (isteps_Inv h (initSims_Inv start stop minStep std n mods0 hm hstd)).1.2 hrun
+  refine ⟨?_, active_exact c hJ, hJ.1, fun mods => by simp [eventTime]⟩
+  intro hne
+  have := advance_to_earliest c (fun _ => []) hJ hne
+  simpa [eventTime] using this
+
+/-- the clock without modifiers keeps everybody on the event time … -/
+def AllOnEvent (c : Clock) : Prop := ∀ s ∈ c.sims, s.next = eventTime c
+
+/-- … so every event includes everybody, -/
+theorem global_active_everybody (c : Clock) (h : AllOnEvent c) : active c = c.sims.map (·.id) := by
+  unfold active activeAt
+  congr 1
+  apply List.filter_eq_self.mpr
+  intro s hs
+  simp [due, h s hs]
+
+/-- and every operation of that mode (clock update, births, explicit step sizes) keeps it so. -/
+theorem global_ops_keep (c : Clock) (k : Nat) (s : Int) (h : AllOnEvent c) :
+    AllOnEvent (stepForwardGlobal c) ∧ AllOnEvent (create c k) ∧ AllOnEvent (refreshGlobal (overrideStep c s)) := by
+  refine ⟨?_, ?_, ?_⟩
+  · intro x hx
+    simp only [stepForwardGlobal, refreshGlobal, List.mem_map] at hx
+    obtain ⟨y, _, rfl⟩ := hx
+    rfl
+  · intro x hx
+    rcases (mem_create c k x).mp hx with hx | ⟨j, _, rfl⟩
+    · simpa [create, eventTime] using h x hx
+    · simp [create, eventTime]
+  · intro x hx
+    simp only [refreshGlobal, List.mem_map] at hx
+    obtain ⟨y, _, rfl⟩ := hx
+    rfl
+
 /-! ### Non-vacuity: the hypotheses are inhabited, the statements bite -/
 
 /-- three simulants, minimum step 24 h, no standard step, one modifier asking 72 / nothing / 50 hours -/
@@ -610,6 +829,20 @@ parking time leaves a next-event time that is not ahead of the clock -/
 example : ¬ J (stepForward { now := 0, step := 100, stop := 50, minStep := 10, stdStep := 10,
                              sims := [⟨0, 100, 100⟩], snooze := [0] } (fun _ => [none])) := by
   intro h; have := h.2.2; revert this; decide
+/-- F33 (fixed in /repo, 88f3a0f3): `step(36 h)` used to restore the old global step 24 h, so the next default
+step went to 60 h, past simulant 0's next-event time 48 h. Now the recomputed step 12 h is kept: the next
+default event is at 48 h and includes simulant 0 alone. -/
+def demo2 : Clock := initSims (configure 0 240 24 0) 3 (fun i => [[some 48], [some 72], [none]].getD i [])
+example : (interactiveIterate demo2 (some 36) [] (fun i => [[some 48], [some 72], [none]].getD i [])).sims.map (·.next) = [48, 72, 60] ∧
+    (interactiveIterate demo2 (some 36) [] (fun i => [[some 48], [some 72], [none]].getD i [])).step = 12 ∧
+    eventTime (interactiveIterate demo2 (some 36) [] (fun i => [[some 48], [some 72], [none]].getD i [])) = 48 ∧
+    active (interactiveIterate demo2 (some 36) [] (fun i => [[some 48], [some 72], [none]].getD i [])) = [0] := by decide
+/-- the stale restore (the code before F33) does violate the invariant: witness kept so the reverted fix is visible -/
+example : ¬ (∀ x ∈ (restoreStep (iterate (overrideStep demo2 36) [] (fun i => [[some 48], [some 72], [none]].getD i [])) demo2.step).sims,
+    eventTime (restoreStep (iterate (overrideStep demo2 36) [] (fun i => [[some 48], [some 72], [none]].getD i [])) demo2.step) ≤ x.next) := by decide
+/-- empty population: the override is undone -/
+example : (interactiveIterate (initSims (configure 0 96 24 0) 0 (fun _ => [])) (some 7) [] (fun _ => [])).step = 24 := by decide
+example : active (refreshGlobal (create (stepBackward (configure 0 192 48 72)) 2)) = [0, 1] := by decide
 example : (runLoop demo [([], fun _ => [some 24]), ([.birth 1], fun _ => [some 48])]).2 =
     [(0, 24, [1]), (24, 48, [1, 2])] := by decide
 
